@@ -10,7 +10,7 @@ import random
 
 from .. import core, progs
 from ..past import (OBS_DECL, obs, lit, vint, vbool, vstr, vnull, vfloat, vchar, bin_, un, let, ident, call, idx, asg,
-                    arr, map_, expr, I, if_, while_, loop, brk, cont, block, fndef)
+                    arr, map_, expr, I, if_, while_, loop, brk, cont, block, fndef, match, arm, plit, prange, pdef)
 
 PROP = "C05"
 
@@ -154,6 +154,40 @@ def value_positions():
     return out
 
 
+def cross_kind_matches():
+    """a scrutinee of another kind than the patterns, around the bounds 97..101 ('a'..'e'): integers, bytes, chars,
+    floats (whole, fractional, NaN, infinite), strings, booleans against integer / byte / char / string ranges and
+    literals.  Where the documentation leaves the outcome open RefSem does too; a float in an integer range, and a
+    byte / an integer far outside the other kind's range, are settled."""
+    from ..past import vfloat, vbyte, vchar, vnull
+    scrut = [("int:%d" % n, I(n)) for n in (96, 97, 99, 101, 102, 200, -1)] + \
+            [("byte:%d" % n, lit(vbyte(n))) for n in (96, 97, 99, 101, 102, 200, 0)] + \
+            [("char:%s" % c, lit(vchar(c))) for c in "`acef"] + \
+            [("float:%s" % x, lit(vfloat(x))) for x in (96.5, 97.0, 99.5, 101.0, 101.5, 102.0, "nan", "pinf", "ninf")] + \
+            [("str:c", lit(vstr("c"))), ("str:99", lit(vstr("99"))), ("bool:true", lit(vbool(True))), ("null", lit(vnull()))]
+    pats = {
+        "int-range-excl": [prange(vint(97), vint(101), False)], "int-range-incl": [prange(vint(97), vint(101), True)],
+        "byte-range-incl": [prange(vbyte(97), vbyte(101), True)], "byte-range-excl": [prange(vbyte(97), vbyte(101), False)],
+        "char-range-incl": [prange(vchar("a"), vchar("e"), True)], "str-range-incl": [prange(vstr("a"), vstr("e"), True)],
+        "int-literals": [plit(vint(97)), plit(vint(99))], "byte-literals": [plit(vbyte(97)), plit(vbyte(99))],
+        "int-range-then-literal": [prange(vint(97), vint(99), False), plit(vint(101))],
+        "bool-both-arms": [], "bool-alternation": [plit(vbool(True)), plit(vbool(False))],
+    }
+    out = []
+    for sn, sv in scrut:
+        for pn, ps in pats.items():
+            if sn.split(":")[0] == pn.split("-")[0]:
+                continue            # same kind: GenMatch's tables
+            for dflt in (True, False):
+                arms = [arm(ps, [expr(I(10))])] + ([arm([pdef()], [expr(I(99))])] if dflt else [])
+                if pn == "bool-both-arms":     # true and false in arms of their own: still not every value
+                    arms = [arm([plit(vbool(True))], [expr(I(10))]), arm([plit(vbool(False))], [expr(I(20))])] + arms[1:]
+                out.append(("match-cross-kind %s in %s default=%s" % (sn, pn, dflt),
+                            [OBS_DECL, fndef("probe", ["x"], [obs(lit(vstr("S"))), expr(ident("x"))]),
+                             obs(match(call("probe", sv), arms)), obs(I(77))]))
+    return out
+
+
 def run(rep, tier, seed):
     core.build_harness()
     rnd = random.Random(seed)
@@ -175,7 +209,12 @@ def run(rep, tier, seed):
             continue
         items.append({"id": "v%d" % n, "prog": prog, "tag": tag})
         n += 1
+    for tag, prog in cross_kind_matches():
+        items.append({"id": "x%d" % n, "prog": prog, "tag": tag})
+        n += 1
     bad, verdicts = progs.run_and_validate(rep, items, chk=("final",))
+    rep.notes["cross_kind_cases_settled_by_the_specification"] = sum(
+        1 for it in items if it["tag"].startswith("match-cross-kind") and verdicts[it["id"]]["v"] == "ok")
     rep.cov["distinct_nontrivial"] = len({it["tag"] for it in items})
     rep.cov["rule"] = ("match: TLC-enumerated scrutinee x pattern tables (spec/GenMatch.tla, quick: every 7th); loops: all "
                        "nests up to depth 2 (thorough 3) of while/loop, labelled or not, with break/continue "
@@ -190,6 +229,8 @@ def run(rep, tier, seed):
         parts = it["tag"].split(" ")
         if parts[0] == "match":
             sig = "match %s %s %s %s" % (parts[1], parts[2], parts[3], progs.outcome_delta(v["exp"], out))
+        elif parts[0] == "match-cross-kind":
+            sig = "match-cross-kind %s in %s %s" % (parts[1].split(":")[0], parts[3], progs.outcome_delta(v["exp"], out))
         elif parts[0] in ("loops", "value-position"):
             sig = "%s %s" % (it["tag"], progs.outcome_delta(v["exp"], out))
         else:
